@@ -726,11 +726,11 @@ func c11Identifiers(p *core.Program, r *core.Report, nodes []*types.Named) {
 			} else {
 				// a function literal: every result it returns comes from functions.Lookup
 				what = "function literal " + core.FuncName(fn)
-				ok = len(fn.FreeVars) == 0 && len(callsNamed(fn, "excellent/functions.Lookup")) > 0
+				ok = (len(fn.FreeVars) == 0 && len(callsNamed(fn, "excellent/functions.Lookup")) > 0) || c11LowerCompare(fn)
 			}
 		case *ssa.Function:
 			what = "function literal " + core.FuncName(v)
-			ok = len(callsNamed(v, "excellent/functions.Lookup")) > 0
+			ok = len(callsNamed(v, "excellent/functions.Lookup")) > 0 || c11LowerCompare(v)
 		default:
 			if w.Val != nil {
 				what = w.Val.String()
@@ -740,33 +740,13 @@ func c11Identifiers(p *core.Program, r *core.Report, nodes []*types.Named) {
 			"Scope.get is set to "+what+", which is not known to resolve names case-insensitively: the printer lower-cases context references, so a printed expression would no longer find what the parsed one found")
 	}
 	r.Require("scope_get_writers", nw, 2)
-	lowerCompare := func(fn *ssa.Function) bool {
-		ok := false
-		core.EachInstr(fn, false, func(_ *ssa.Function, in ssa.Instruction) {
-			switch x := in.(type) {
-			case *ssa.BinOp:
-				if x.Op == token.EQL && core.DerivesFromCallDeep(x.X, 2, "strings.ToLower") && core.DerivesFromCallDeep(x.Y, 2, "strings.ToLower") {
-					ok = true
-				}
-			case *ssa.Lookup:
-				if core.DerivesFromCallDeep(x.Index, 2, "strings.ToLower") {
-					ok = true
-				}
-			case *ssa.Call:
-				if o := core.CalleeObj(&x.Call); o != nil && core.ObjName(o) == "strings.EqualFold" {
-					ok = true
-				}
-			}
-		})
-		return ok
-	}
 	if g := p.Method("excellent/types", "XObject", "Get"); g != nil {
-		r.Check(lowerCompare(g), "R6", "XObject.Get/case-insensitive", p.Pos(g.Pos()), "compares lower-cased names", "XObject.Get no longer falls back to a case-insensitive match: a lower-cased printed reference does not resolve")
+		r.Check(c11LowerCompare(g), "R6", "XObject.Get/case-insensitive", p.Pos(g.Pos()), "compares lower-cased names", "XObject.Get no longer falls back to a case-insensitive match: a lower-cased printed reference does not resolve")
 	} else {
 		r.Errorf("XObject.Get not found")
 	}
 	if g := p.Func("excellent/functions", "Lookup"); g != nil {
-		r.Check(lowerCompare(g), "R6", "functions.Lookup/case-insensitive", p.Pos(g.Pos()), "indexes the table with the lower-cased name", "functions.Lookup no longer lower-cases the name: a lower-cased printed function reference may not resolve")
+		r.Check(c11LowerCompare(g), "R6", "functions.Lookup/case-insensitive", p.Pos(g.Pos()), "indexes the table with the lower-cased name", "functions.Lookup no longer lower-cases the name: a lower-cased printed function reference may not resolve")
 	} else {
 		r.Errorf("functions.Lookup not found")
 	}
@@ -786,4 +766,27 @@ func storeRoot(addr ssa.Value) ssa.Value {
 			return nil
 		}
 	}
+}
+
+// c11LowerCompare: fn resolves a name case-insensitively — it compares two lower-cased values, indexes a table with a
+// lower-cased key, or uses strings.EqualFold.
+func c11LowerCompare(fn *ssa.Function) bool {
+	ok := false
+	core.EachInstr(fn, false, func(_ *ssa.Function, in ssa.Instruction) {
+		switch x := in.(type) {
+		case *ssa.BinOp:
+			if x.Op == token.EQL && core.DerivesFromCallDeep(x.X, 2, "strings.ToLower") && core.DerivesFromCallDeep(x.Y, 2, "strings.ToLower") {
+				ok = true
+			}
+		case *ssa.Lookup:
+			if core.DerivesFromCallDeep(x.Index, 2, "strings.ToLower") {
+				ok = true
+			}
+		case *ssa.Call:
+			if o := core.CalleeObj(&x.Call); o != nil && core.ObjName(o) == "strings.EqualFold" {
+				ok = true
+			}
+		}
+	})
+	return ok
 }
